@@ -790,4 +790,11 @@ def Disp.callK (E : Env) (keyf : List Slot → List Slot) (d : Disp) (types : Li
     | .found i => (.found i, { d with cache := (keyf types, i) :: d.cache })
     | r => (r, d)
 
+/-- `PartialDispatcher.add` as the source has it: registers, drops `_ordering`, and clears `_cache`
+    iff `clears` (read from the source: it delegates to `Dispatcher.add`, which does `self._cache.clear()`,
+    or clears itself). -/
+def Disp.addC (clears : Bool) (ord : List Sig → List Nat) (d : Disp) (s : Sig) : Disp :=
+  let sigs := d.sigs ++ [s]
+  { sigs := sigs, order := ord sigs, cache := if clears then [] else d.cache }
+
 end FV.C16
